@@ -1,6 +1,7 @@
 """Child process of the C10 worker: loads prefixes of one file, one result line per prefix.
 
-stdin : {"kind": bqm|qm|cqm|dqm, "hex": <file>, "ks": [...], "how": bytes|file|load_bytes, "timeout": seconds}
+stdin : {"kind": bqm|qm|cqm|dqm, "hex": <file>, "ks": [...], "how": bytes|file|load_bytes, "timeout": seconds,
+         "member": optional name of a zip member of a CQM file: then k cuts that member inside a valid zip}
 stdout: "R <digest of the reference state>" then, per k, "k E|Q|D <detail>" flushed immediately, so that
         the parent knows which prefix was being loaded when the process died (crash) or was killed by the
         per-prefix SIGALRM (hang: the default action of SIGALRM terminates the process even inside C code).
@@ -16,6 +17,7 @@ def main():
     import codecgen as G
     data = bytes.fromhex(job["hex"])
     kind, how = job["kind"], job.get("how", "bytes")
+    member = job.get("member")        # cut this zip member instead of the file
     if job.get("noref"):
         # the file itself is already a cut: any successful load is a different model
         ref = {"noref": True}
@@ -30,7 +32,12 @@ def main():
         sys.stdout.flush()
         signal.setitimer(signal.ITIMER_REAL, tmo)
         try:
-            m = G.load_as(kind, data[:k], how)
+            if isinstance(member, list):     # k encodes (member index, cut) as index*100000 + cut
+                m = G.load_as('cqm', G.cut_member(data, member[k // 100000], k % 100000), how)
+            elif member is not None:
+                m = G.load_as('cqm', G.cut_member(data, member, k), how)
+            else:
+                m = G.load_as(kind, data[:k], how)
             d = G.diff_state(ref, G.state_of(m))
             out = "Q" if d is None else "D " + d.replace("\n", " ")[:300]
         except Exception as e:        # ordinary Python exception
